@@ -7,7 +7,7 @@
    no panic or hang, one error entry per failed call and none otherwise, data a sub-tree of the
    reference). *)
 From Coq Require Import List Arith Bool Permutation String.
-From GW Require Import Base.Res Base.Json Gw.ExecLTS Gw.ExecCheck Gw.Points Proofs.ExecLTSProofs Proofs.ExecLTSConserve Proofs.PointsProofs.
+From GW Require Import Base.Res Base.Json Gw.ExecLTS Gw.ExecCheck Gw.Points Proofs.ExecLTSProofs Proofs.ExecLTSConserve Proofs.ErrFlatten Proofs.PointsProofs.
 Import ListNotations.
 
 (* For every call tree, every assignment of failures to its nodes and every schedule: when Execute
@@ -27,6 +27,32 @@ Proof.
   rewrite Hf in P. apply Permutation_sym, Permutation_nil in P. exact P.
 Qed.
 Print Assumptions C07_no_failure_no_error.
+
+(* The error list itself, not only which calls it speaks of.  A failed call comes back with a plain
+   error or with a graphql.ErrorList of any number of entries; the collector's recordErr appends a
+   plain error as one entry and a list entry by entry (execute.go, "flattening nested lists").
+   What Execute returns is that fold over the payloads in the order the collector met them
+   (returned_errors).  For every call tree, failure set, payloads and schedule it holds every entry
+   of every failure exactly once and nothing else; the entries of one failure stay together, in
+   their own order. *)
+Theorem C07_every_entry_of_every_failure_is_returned : forall (E : Type) (payload : nat -> goerr E) rcap, 0 < rcap ->
+  forall roots s, reach rcap roots s -> ret s = true ->
+  Permutation (returned_errors E payload s) (flat_map (fun i => entries E (payload i)) (failingl roots)).
+Proof. exact returned_errors_are_the_failures. Qed.
+Print Assumptions C07_every_entry_of_every_failure_is_returned.
+
+Theorem C07_error_lists_are_flattened_whole_and_in_order : forall (E : Type) (payload : nat -> goerr E) rcap, 0 < rcap ->
+  forall roots s, reach rcap roots s -> ret s = true ->
+  exists order, Permutation order (failingl roots) /\
+                returned_errors E payload s = List.concat (map (fun i => entries E (payload i)) order).
+Proof. exact returned_errors_keep_each_list. Qed.
+Print Assumptions C07_error_lists_are_flattened_whole_and_in_order.
+
+Theorem C07_number_of_entries : forall (E : Type) (payload : nat -> goerr E) rcap, 0 < rcap ->
+  forall roots s, reach rcap roots s -> ret s = true ->
+  List.length (returned_errors E payload s) = fold_right (fun i n => List.length (entries E (payload i)) + n) 0 (failingl roots).
+Proof. exact count_of_entries. Qed.
+Print Assumptions C07_number_of_entries.
 
 (* failures never stop the others: every call of the tree is still issued and its result stitched,
    and Execute returns (no schedule deadlocks, however many calls fail) *)
@@ -55,3 +81,12 @@ Example C07_nonvacuous :
   let f := run_first 2 200 (init t) in
   ret f = true /\ same_multiset (errs f) [1; 4] = true /\ same_multiset (ins f) [0; 1; 2; 3; 4] = true.
 Proof. vm_compute. repeat split; reflexivity. Qed.
+
+(* a run in which call 1 fails with a list of two entries and call 4 with a plain error: three
+   entries are returned, the two of call 1 side by side *)
+Example C07_entries_nonvacuous :
+  let t := [Node 0 false [Node 1 true [Node 3 false []]; Node 2 false []]; Node 4 true []] in
+  let f := run_first 2 200 (init t) in
+  let payload := fun i => if Nat.eqb i 1 then ErrList nat [10; 11] else Plain nat (i * 100) in
+  ret f = true /\ (returned_errors nat payload f = [10; 11; 400] \/ returned_errors nat payload f = [400; 10; 11]).
+Proof. vm_compute. split; [reflexivity|]. first [left; reflexivity | right; reflexivity]. Qed.
